@@ -410,7 +410,7 @@ func ruleNoByteSlicing(c *core.Ctx, rule string) {
 					if bnd == nil {
 						continue
 					}
-					if _, isC := bnd.(*ssa.Const); !isC {
+					if !boundarySafe(bnd, 0) {
 						nonConst = true
 					}
 				}
@@ -425,4 +425,38 @@ func ruleNoByteSlicing(c *core.Ctx, rule string) {
 	if n == 0 {
 		c.Discharge(rule, "commands", "no-byte-slicing", "-", "no string is sliced at a computed byte position in the command packages")
 	}
+}
+
+// boundarySafe: a slice bound that is a constant, a length, the position a
+// strings.Index-family search returned, or sums/differences of those — cuts at
+// such positions fall on the boundaries of the searched or measured text.
+func boundarySafe(v ssa.Value, depth int) bool {
+	if depth > 5 {
+		return false
+	}
+	switch x := v.(type) {
+	case *ssa.Const:
+		return true
+	case *ssa.BinOp:
+		if x.Op != token.ADD && x.Op != token.SUB {
+			return false
+		}
+		return boundarySafe(x.X, depth+1) && boundarySafe(x.Y, depth+1)
+	case *ssa.Call:
+		if b, ok := x.Call.Value.(*ssa.Builtin); ok && b.Name() == "len" {
+			return true
+		}
+		if cal := x.Call.StaticCallee(); cal != nil {
+			n := cal.String()
+			return strings.HasPrefix(n, "strings.Index") || strings.HasPrefix(n, "strings.LastIndex") || n == "unicode/utf8.RuneLen"
+		}
+	case *ssa.Phi:
+		for _, e := range x.Edges {
+			if !boundarySafe(e, depth+1) {
+				return false
+			}
+		}
+		return true
+	}
+	return false
 }
